@@ -469,6 +469,19 @@ pub fn gen_schema(rng: &mut Rng) -> GSchema {
             fields,
         });
     }
+    // a way back to the query root type from below the root ("viewer: Query", a mutation payload's
+    // "query: Query!"): the meta-fields __schema / __type exist on that *type*, at any depth
+    if rng.chance(1, 5) {
+        let n = g.objects.len();
+        let host = rng.usize(n);
+        let q = g.query.clone();
+        let ty = wrap_type(rng, &q, 1);
+        g.objects[host].fields.push(GField {
+            name: "back".into(),
+            ty,
+            args: vec![],
+        });
+    }
     // also let some fields be shared between objects (same name, same type)
     if g.objects.len() >= 2 && rng.chance(1, 2) {
         let f = new_field(rng, &g);
@@ -747,7 +760,27 @@ impl OpGen<'_> {
                 break;
             }
         }
+        if depth > 1 && parent == self.g.query && self.rng.chance(1, 3) {
+            // the query root type reached below the root: schema introspection meta-fields are
+            // fields of that type here too
+            let t = self.meta_template();
+            items.push(t);
+        }
         format!("{{ {} }}", items.join(" "))
+    }
+
+    /// one of the schema-introspection selections the reference executor models
+    fn meta_template(&mut self) -> String {
+        match self.rng.below(4) {
+            0 => "__schema { queryType { name } }".to_string(),
+            1 => {
+                let n = self.g.objects.len();
+                let t = self.g.objects[self.rng.usize(n)].name.clone();
+                format!("__type(name: \"{t}\") {{ name kind }}")
+            }
+            2 => "__type(name: \"Nope\") { name }".to_string(),
+            _ => "meta: __type(name: \"Color\") { kind enumValues { name } }".to_string(),
+        }
     }
 
     fn field_selection(&mut self, f: &GField, depth: u32) -> String {
